@@ -1253,15 +1253,17 @@ class System:
             rails.remove("")
             rail, vin, iin, pwr, loss, eff = [], [], [], [], [], []
             warn, phases, res = [], [], {}
-            if len(rails) > 0:
+            if True:
                 for ph in phase_list:
                     for r in rails:
-                        rail += [r]
-                        phases += [ph]
                         if ph != "":
                             filt = (df["Rail in"] == r) & (df["Phase"] == ph)
                         else:
                             filt = df["Rail in"] == r
+                        if not filt.any():
+                            continue
+                        rail += [r]
+                        phases += [ph]
                         vin += [df[filt]["Vin (V)"].tolist()[0]]
                         iin += [sum(df[filt]["Iin (A)"])]
                         p = sum(df[filt]["Power (W)"])
@@ -1273,12 +1275,9 @@ class System:
                         else:
                             eff += [100 * p / (p + l)]
                         w = list(set(df[filt]["Warnings"].tolist()))
-                        if len(w) > 1:
-                            if "" in w:
-                                w.remove("")
-                            warn += [", ".join(w)]
-                        else:
-                            warn += [""]
+                        if "" in w:
+                            w.remove("")
+                        warn += [", ".join(w)]
                 if phase_list != [""]:
                     res["Phase"] = phases
                 res["Rail"] = rail
